@@ -132,68 +132,7 @@ func c28(c *Ctx) {
 		c.Check(len(c.Calls(cl, vmp+".returnStack")) == 1, "evm-release/"+fnName(cl), cl.Pos(), "the arena is returned when the EVM is released", "EVM.Release does not return the stack arena")
 	}
 
-	// ---- code ↔ hash pairing ------------------------------------------------------------------------
-	c.Rule("SAMEVAL/C28.code")
-	nsc := 0
-	for _, f := range c.AllFuncs(vmp) {
-		for _, s := range c.Calls(f, "(*"+vmp+".Contract).SetCallCode") {
-			nsc++
-			a := s.Instr.(*ssa.Call).Call.Args
-			h, code := a[1], a[2]
-			okPair := false
-			if hc, ok := h.(*ssa.Call); ok && calleeName(&hc.Call) == "(*"+vmp+".EVM).resolveCodeHash" {
-				if cc, ok := strip(code).(*ssa.Call); ok && calleeName(&cc.Call) == "(*"+vmp+".EVM).resolveCode" {
-					okPair = sameValue(hc.Call.Args[1], cc.Call.Args[1])
-				}
-			}
-			isZero := false
-			if k, ok := h.(*ssa.Const); ok && k.Value == nil {
-				isZero = true
-			}
-			if u, ok := h.(*ssa.UnOp); ok {
-				if al, ok := u.X.(*ssa.Alloc); ok {
-					n := 0
-					for _, r := range *al.Referrers() {
-						if _, isSt := r.(*ssa.Store); isSt {
-							n++
-						}
-					}
-					isZero = n == 0
-				}
-			}
-			c.Funcs[f] = true
-			c.Check(okPair || isZero, "pair/"+fnName(f), s.Pos(), "code and hash are resolved from the same address (or the hash is zero for initcode)", "the contract's code hash and code are not resolved from the same address: a jump-destination analysis would be cached under the hash of different code")
-		}
-	}
-	c.Expect(5, nsc, "SetCallCode sites")
-	if ic := c.Fn(vmp, "(*Contract).isCode"); ic != nil {
-		C := vmp + ".Contract."
-		var stores []Site
-		eachInstr(ic, func(in ssa.Instruction) {
-			if call, ok := in.(ssa.CallInstruction); ok && call.Common().IsInvoke() && call.Common().Method.Name() == "Store" {
-				stores = append(stores, Site{ic, in})
-			}
-		})
-		c.Expect(1, len(stores), "shared-cache stores in isCode")
-		c.Dom("shared-only-hashed", ic, stores, "jumpDests.Store", GCond("c.CodeHash != zero", ic, Cmp(Fld(C+"CodeHash"), token.NEQ, Any())))
-		for _, s := range stores {
-			a := s.Instr.(ssa.CallInstruction).Common().Args
-			okK := Fld(C + "CodeHash")(a[0])
-			okV := false
-			val := a[1]
-			if w := forwardStore(val, s.Instr); w != nil {
-				val = w
-			}
-			if call, ok := val.(*ssa.Call); ok && calleeName(&call.Call) == vmp+".codeBitmap" {
-				okV = Fld(C + "Code")(call.Call.Args[0])
-			}
-			c.Check(okK && okV, "shared-key/"+fnName(ic), s.Pos(), "the analysis of c.Code is stored under c.CodeHash", "the shared cache entry is not codeBitmap(c.Code) under c.CodeHash")
-		}
-		for _, s := range c.Calls(ic, vmp+".codeBitmap") {
-			c.Check(Fld(C+"Code")(s.Instr.(*ssa.Call).Call.Args[0]), "analysed-code/"+fnName(ic), s.Pos(), "the analysis is of the contract's own code", "the jump-destination analysis is computed from something other than c.Code")
-		}
-		c.Expect(2, len(c.Calls(ic, vmp+".codeBitmap")), "codeBitmap calls in isCode")
-	}
+	c28CodePair(c, "SAMEVAL/C28.code")
 
 	// ---- precompile cache ---------------------------------------------------------------------------
 	c.Lockset(LockSpec{Name: "C28.pcdata", Pkg: vmp, Mutex: vmp + ".precompileCacheData.mu", RW: true,
@@ -309,4 +248,71 @@ func c28(c *Ctx) {
 			c.Check(a != "" && a == b, "shard/"+fnName(sh), sh.Pos(), "Load and Store pick the shard the same way", "Load and Store address different shards for the same hash ("+a+" vs "+b+")")
 		}
 	}
+}
+
+// c28CodePair: the jump-destination cache is keyed by the hash of the code it analysed.
+func c28CodePair(c *Ctx, rule string) {
+	// ---- code ↔ hash pairing ------------------------------------------------------------------------
+	c.Rule(rule)
+	nsc := 0
+	for _, f := range c.AllFuncs(vmp) {
+		for _, s := range c.Calls(f, "(*"+vmp+".Contract).SetCallCode") {
+			nsc++
+			a := s.Instr.(*ssa.Call).Call.Args
+			h, code := a[1], a[2]
+			okPair := false
+			if hc, ok := h.(*ssa.Call); ok && calleeName(&hc.Call) == "(*"+vmp+".EVM).resolveCodeHash" {
+				if cc, ok := strip(code).(*ssa.Call); ok && calleeName(&cc.Call) == "(*"+vmp+".EVM).resolveCode" {
+					okPair = sameValue(hc.Call.Args[1], cc.Call.Args[1])
+				}
+			}
+			isZero := false
+			if k, ok := h.(*ssa.Const); ok && k.Value == nil {
+				isZero = true
+			}
+			if u, ok := h.(*ssa.UnOp); ok {
+				if al, ok := u.X.(*ssa.Alloc); ok {
+					n := 0
+					for _, r := range *al.Referrers() {
+						if _, isSt := r.(*ssa.Store); isSt {
+							n++
+						}
+					}
+					isZero = n == 0
+				}
+			}
+			c.Funcs[f] = true
+			c.Check(okPair || isZero, "pair/"+fnName(f), s.Pos(), "code and hash are resolved from the same address (or the hash is zero for initcode)", "the contract's code hash and code are not resolved from the same address: a jump-destination analysis would be cached under the hash of different code")
+		}
+	}
+	c.Expect(5, nsc, "SetCallCode sites")
+	if ic := c.Fn(vmp, "(*Contract).isCode"); ic != nil {
+		C := vmp + ".Contract."
+		var stores []Site
+		eachInstr(ic, func(in ssa.Instruction) {
+			if call, ok := in.(ssa.CallInstruction); ok && call.Common().IsInvoke() && call.Common().Method.Name() == "Store" {
+				stores = append(stores, Site{ic, in})
+			}
+		})
+		c.Expect(1, len(stores), "shared-cache stores in isCode")
+		c.Dom("shared-only-hashed", ic, stores, "jumpDests.Store", GCond("c.CodeHash != zero", ic, Cmp(Fld(C+"CodeHash"), token.NEQ, Any())))
+		for _, s := range stores {
+			a := s.Instr.(ssa.CallInstruction).Common().Args
+			okK := Fld(C + "CodeHash")(a[0])
+			okV := false
+			val := a[1]
+			if w := forwardStore(val, s.Instr); w != nil {
+				val = w
+			}
+			if call, ok := val.(*ssa.Call); ok && calleeName(&call.Call) == vmp+".codeBitmap" {
+				okV = Fld(C + "Code")(call.Call.Args[0])
+			}
+			c.Check(okK && okV, "shared-key/"+fnName(ic), s.Pos(), "the analysis of c.Code is stored under c.CodeHash", "the shared cache entry is not codeBitmap(c.Code) under c.CodeHash")
+		}
+		for _, s := range c.Calls(ic, vmp+".codeBitmap") {
+			c.Check(Fld(C+"Code")(s.Instr.(*ssa.Call).Call.Args[0]), "analysed-code/"+fnName(ic), s.Pos(), "the analysis is of the contract's own code", "the jump-destination analysis is computed from something other than c.Code")
+		}
+		c.Expect(2, len(c.Calls(ic, vmp+".codeBitmap")), "codeBitmap calls in isCode")
+	}
+
 }
